@@ -320,11 +320,11 @@ def _build_registry():
             E(f"BitCrcCalculator(custom w{width} poly {poly:#x},{'table' if table else 'bitwise'}).calculate_checksum", customcrc(width, poly, table), "bits:0-200")
     E("CRC8.calculate", lambda b: L("etsi.crc.crc8:CRC8").calculate(b), "bits:28|36|0-80")
     E("CRC8.check", lambda b, c: L("etsi.crc.crc8:CRC8").check(b, c), "bits:28|36", "int:0:255")
-    E("CRC9.calculate", lambda b, m: L("etsi.crc.crc9:CRC9").calculate(b, m), "bits:80-200", "mask")
-    E("CRC9.calculate_from_parts", lambda d, s, m, c: L("etsi.crc.crc9:CRC9").calculate_from_parts(data=d, serial_number=s, mask=m, crc32=c), "bytesm:6-22", "int:0:127", "mask", "crc32opt")
-    E("CRC9.check", lambda d, s, c9, m: L("etsi.crc.crc9:CRC9").check(d, s, c9, m), "bytesm:6-22", "int:0:127", "int:0:511", "mask")
-    E("CRC16.calculate", lambda d, m: L("etsi.crc.crc16:CRC16").calculate(d, m), "bytesm:10|9|1-30", "mask")
-    E("CRC16.check", lambda d, c, m: L("etsi.crc.crc16:CRC16").check(d, c, m), "bytesm:10", "int:0:65535", "mask")
+    E("CRC9.calculate", lambda b, m: L("etsi.crc.crc9:CRC9").calculate(b, m), "bits:80-200|0-200", "mask")
+    E("CRC9.calculate_from_parts", lambda d, s, m, c: L("etsi.crc.crc9:CRC9").calculate_from_parts(data=d, serial_number=s, mask=m, crc32=c), "bytesm:6-22|6-22|0-24", "int:0:127", "mask", "crc32opt")  # (every length from zero: the sizes the block PDUs use, and any other)
+    E("CRC9.check", lambda d, s, c9, m: L("etsi.crc.crc9:CRC9").check(d, s, c9, m), "bytesm:6-22|6-22|0-24", "int:0:127", "int:0:511", "mask")
+    E("CRC16.calculate", lambda d, m: L("etsi.crc.crc16:CRC16").calculate(d, m), "bytesm:10|9|0-30", "mask")
+    E("CRC16.check", lambda d, c, m: L("etsi.crc.crc16:CRC16").check(d, c, m), "bytesm:10|10|0-30", "int:0:65535", "mask")
     E("CRC32.calculate", lambda d: L("etsi.crc.crc32:CRC32").calculate(d), "bytesm:0-64")
     E("CRC32.check", lambda d, c: L("etsi.crc.crc32:CRC32").check(d, c), "bytesm:0-64", "int:0:4294967295")
     E("FiveBitChecksum.calculate", lambda d: L("etsi.fec.five_bit_checksum:FiveBitChecksum").calculate(d), "bytes:9")
@@ -353,6 +353,8 @@ def _build_registry():
     E("Trellis34.encode(bits)", lambda b: L(T).encode(b), "bits:144")
     E("Trellis34.encode(bytes)", lambda b: L(T).encode(b), "bytes:18")
     E("Trellis34.decode", lambda b, asb: L(T).decode(b, asb), "cw:Trellis", "bool")
+    E("Trellis34 decode, stage by stage", lambda b: _staged(L(T), ["bits_to_dibits", "deinterleave", "dibits_to_points", "points_to_tribits", "tribits_to_bits"], b), "cw:Trellis")
+    E("Trellis34 encode, stage by stage", lambda b: _staged(L(T), ["bits_to_tribits", "tribits_to_points", "points_to_dibits", "interleave", "dibits_to_bits"], b), "bits:144")
     R = "etsi.fec.reed_solomon_12_9_4:ReedSolomon1294"
     E("ReedSolomon1294.generate", lambda d, m: L(R).generate(d, m), "bytes:9", "bytes:3")
     E("ReedSolomon1294.check", lambda d, m: L(R).check(d, m), "cw:RS", "bytes:3z")
@@ -491,6 +493,22 @@ def _reconstruct(obj, omit):
         # the constructor or a serialiser changed an object it was GIVEN (an address object, a buffer, an option list the caller still holds)
         raise ArgumentObjectChanged(f"{cls.__name__}: argument(s) {changed} changed by construction / serialisation")
     return [new, sorted(kw)]
+
+
+def _staged(cls, stages, x):
+    """a codec pipeline called stage by stage through its public static methods, the caller holding every intermediate buffer: each stage must leave the
+    buffer it was given unchanged (it is the caller's), and the chain must give what it gives"""
+    import copy
+
+    out = []
+    for st in stages:
+        was = copy.deepcopy(x)
+        y = getattr(cls, st)(x)
+        if core.dumps(canon(x)) != core.dumps(canon(was)):
+            raise ArgumentObjectChanged(f"{cls.__name__}.{st} changed the buffer it was given")
+        out.append(y)
+        x = y
+    return out
 
 
 def _lrrp_rebuild(d, is_request):
